@@ -410,10 +410,22 @@ func (bp *boundsProver) proveLen(v ssa.Value, x ssa.Value, goal relGoal, at ssa.
 	if lx, ok := lenOf(v); ok && goal == leLen && bp.sameSeq(lx, x) && bp.loadStable(lx, x, at) {
 		return true
 	}
+	// x loaded from a field of a local object that only ever holds one make([]T, n) stored before this point
+	if lv := localFieldMake(x, at); lv != nil {
+		x = lv
+	}
 	// x built by make([]T, n): compare with n
 	if ms, ok := x.(*ssa.MakeSlice); ok {
 		if ly, ok := lenOf(ms.Len); ok {
 			if bp.proveLen(v, ly, goal, at, atBlock, seen, d+1) {
+				return true
+			}
+		}
+	}
+	// x built by a helper that returns make([]T, len(<field of its parameter>)): compare with that field of the argument
+	if call, ok := x.(*ssa.Call); ok {
+		if norm, cls, ok := bp.helperMakeLen(call); ok {
+			if rx := rangeIndexSeq(v); rx != nil && normSeq(rx) == norm && !bp.mayWriteBetween(call, at, cls) {
 				return true
 			}
 		}
@@ -443,7 +455,7 @@ func (bp *boundsProver) proveLen(v ssa.Value, x ssa.Value, goal relGoal, at ssa.
 		if !ce.Val {
 			op = negateOp(op)
 		}
-		if bo.X == v {
+		if bo.X == v || sameLenCall(bo.X, v) {
 			if ly, ok := lenOf(bo.Y); ok && bp.sameSeq(ly, x) && bp.loadStable(ly, x, at) {
 				if op == token.LSS || (op == token.LEQ && goal == leLen) {
 					return true
@@ -469,6 +481,12 @@ func (bp *boundsProver) proveLen(v ssa.Value, x ssa.Value, goal relGoal, at ssa.
 			k = ml
 		}
 		if bp.ubConst(v, k, atBlock, nil, map[ssa.Value]bool{}, d+1) {
+			return true
+		}
+	}
+	// v = len(S) for a list S that starts empty and only grows by one element under a check that there is room
+	if sv, ok := lenOf(v); ok && goal == leLen {
+		if bp.grownWithin(sv, x, at, map[ssa.Value]bool{}, 0) {
 			return true
 		}
 	}
@@ -1272,6 +1290,273 @@ func hasMapUpdate(fn *ssa.Function, m ssa.Value) bool {
 			if mu, ok := in.(*ssa.MapUpdate); ok && mu.Map == m {
 				return true
 			}
+		}
+	}
+	return false
+}
+
+// helperMakeLen: call invokes a module function every return of which is one make([]T, len(L)) with L a field (or
+// getter) of one of its parameters, or the parameter itself. Returns the caller-side canonical form of L (as normSeq
+// spells it) and the cell class of that field.
+func (bp *boundsProver) helperMakeLen(call *ssa.Call) (string, string, bool) {
+	h := call.Call.StaticCallee()
+	if h == nil || call.Call.IsInvoke() || len(h.Blocks) == 0 || !bp.c.P.isModuleFn(h) || len(h.Params) != len(call.Call.Args) {
+		return "", "", false
+	}
+	var ms *ssa.MakeSlice
+	for _, b := range h.Blocks {
+		ret, ok := b.Instrs[len(b.Instrs)-1].(*ssa.Return)
+		if !ok {
+			continue
+		}
+		if len(ret.Results) != 1 {
+			return "", "", false
+		}
+		m, ok := ret.Results[0].(*ssa.MakeSlice)
+		if !ok || (ms != nil && ms != m) {
+			return "", "", false
+		}
+		ms = m
+	}
+	if ms == nil {
+		return "", "", false
+	}
+	L, ok := lenOf(ms.Len)
+	if !ok {
+		return "", "", false
+	}
+	// L through a local: `entities := msg.GetEntity()` is the call itself; a phi or cell is not followed
+	for i, pa := range h.Params {
+		pn := canon(pa)
+		switch x := L.(type) {
+		case *ssa.Parameter:
+			if x == pa {
+				return normSeq(call.Call.Args[i]), "", normSeq(call.Call.Args[i]) != ""
+			}
+		case *ssa.Call:
+			if cal := x.Call.StaticCallee(); cal != nil && len(x.Call.Args) == 1 && x.Call.Args[0] == ssa.Value(pa) {
+				if fi, ok := getterField(cal); ok {
+					f := fieldName(cal.Params[0].Type(), fi)
+					return "*(" + canon(call.Call.Args[i]) + "." + f + ")", typeName(cal.Params[0].Type()) + "." + f, true
+				}
+			}
+		case *ssa.UnOp:
+			if fa, ok := x.X.(*ssa.FieldAddr); ok && fa.X == ssa.Value(pa) {
+				f := fieldName(fa.X.Type(), fa.Field)
+				return "*(" + canon(call.Call.Args[i]) + "." + f + ")", typeName(fa.X.Type()) + "." + f, true
+			}
+		}
+		_ = pn
+	}
+	return "", "", false
+}
+
+// localFieldMake: x is a load of field f of a local object (an Alloc of this function); every store to that field of
+// that object stores the same MakeSlice value, that store precedes `at` on every path, and the field's address is used
+// for nothing but loads and those stores (no append through it, no escape of the field address). Returns the MakeSlice.
+func localFieldMake(x ssa.Value, at ssa.Instruction) *ssa.MakeSlice {
+	ld, ok := x.(*ssa.UnOp)
+	if !ok || ld.Op != token.MUL {
+		return nil
+	}
+	fa, ok := ld.X.(*ssa.FieldAddr)
+	if !ok {
+		return nil
+	}
+	al, ok := fa.X.(*ssa.Alloc)
+	if !ok {
+		return nil
+	}
+	var ms *ssa.MakeSlice
+	var theStore *ssa.Store
+	for _, r := range *al.Referrers() {
+		fa2, ok := r.(*ssa.FieldAddr)
+		if !ok || fa2.Field != fa.Field {
+			continue
+		}
+		for _, r2 := range *fa2.Referrers() {
+			switch u := r2.(type) {
+			case *ssa.Store:
+				if u.Addr != ssa.Value(fa2) {
+					return nil // the field's address is stored somewhere
+				}
+				m, isMake := u.Val.(*ssa.MakeSlice)
+				if !isMake || (ms != nil && ms != m) {
+					return nil
+				}
+				ms, theStore = m, u
+			case *ssa.UnOp, *ssa.DebugRef:
+			default:
+				return nil
+			}
+		}
+	}
+	if ms == nil || theStore == nil || !instrBefore(theStore, at) {
+		return nil
+	}
+	return ms
+}
+
+// sameLenCall: two len() calls on the identical SSA value (slices and strings are values: equal operand, equal length).
+func sameLenCall(a, b ssa.Value) bool {
+	la, ok1 := lenOf(a)
+	lb, ok2 := lenOf(b)
+	return ok1 && ok2 && la == lb
+}
+
+// grownWithin: len(S) <= len(x) because S is nil / empty, or a phi of such values, or append(S', one element) at a
+// point where len(S') < len(x) is known (a dominating comparison on the identical S'), S' itself satisfying the same.
+func (bp *boundsProver) grownWithin(S, x ssa.Value, at ssa.Instruction, seen map[ssa.Value]bool, d int) bool {
+	if d > 8 {
+		return false
+	}
+	if seen[S] {
+		return true // induction over the loop that grows S
+	}
+	seen[S] = true
+	switch w := S.(type) {
+	case *ssa.Const:
+		return w.Value == nil
+	case *ssa.MakeSlice:
+		k, ok := constInt(w.Len)
+		return ok && k == 0
+	case *ssa.Phi:
+		for _, ed := range w.Edges {
+			if !bp.grownWithin(ed, x, at, seen, d+1) {
+				return false
+			}
+		}
+		return true
+	case *ssa.Call:
+		if !isBuiltin(w, "append") || len(w.Call.Args) != 2 {
+			return false
+		}
+		sl, ok := w.Call.Args[1].(*ssa.Slice)
+		if !ok {
+			return false
+		}
+		arr := isLocalArrayAlloc(sl.X)
+		if arr == nil {
+			return false
+		}
+		if at2, ok := deref(arr.Type()).Underlying().(*types.Array); !ok || at2.Len() != 1 {
+			return false
+		}
+		base := w.Call.Args[0]
+		room := false
+		for _, ce := range dominatingConds(w.Block()) {
+			bo, ok := ce.Cond.(*ssa.BinOp)
+			if !ok {
+				continue
+			}
+			op := bo.Op
+			if !ce.Val {
+				op = negateOp(op)
+			}
+			lx, ok1 := lenOf(bo.X)
+			ly, ok2 := lenOf(bo.Y)
+			if ok1 && ok2 && lx == base && op == token.LSS && bp.sameSeq(ly, x) && bp.loadStable(ly, x, at) {
+				room = true
+			}
+		}
+		if !room {
+			room = bp.countedRoom(w, base, x, at)
+		}
+		return room && bp.grownWithin(base, x, at, seen, d+1)
+	}
+	return false
+}
+
+// countedRoom: the append `app` = append(base, one element) has room in x because base is a list that is empty before
+// a loop, grows by at most this one element per trip around it, the loop counts its trips with an index i that starts
+// at 0 and goes up by one, and i < len(x) is known where the append is: len(base) <= i < len(x).
+func (bp *boundsProver) countedRoom(app *ssa.Call, base, x ssa.Value, at ssa.Instruction) bool {
+	hphi, ok := base.(*ssa.Phi)
+	if !ok {
+		return false
+	}
+	var loop *Loop
+	for _, l := range naturalLoops(app.Parent()) {
+		if l.Header == hphi.Block() && l.Blocks[app.Block()] {
+			loop = l
+		}
+	}
+	if loop == nil {
+		return false
+	}
+	// not inside an inner loop
+	for _, l := range naturalLoops(app.Parent()) {
+		if l.Header != loop.Header && l.Blocks[app.Block()] && loop.Blocks[l.Header] {
+			return false
+		}
+	}
+	// every value carried around the loop is base itself or this append; the value from outside is empty
+	var carried func(v ssa.Value, d int) bool
+	carried = func(v ssa.Value, d int) bool {
+		if v == ssa.Value(hphi) || v == ssa.Value(app) {
+			return true
+		}
+		if p2, ok := v.(*ssa.Phi); ok && d < 6 && loop.Blocks[p2.Block()] && p2 != hphi {
+			for _, e := range p2.Edges {
+				if !carried(e, d+1) {
+					return false
+				}
+			}
+			return true
+		}
+		return false
+	}
+	for i, e := range hphi.Edges {
+		if loop.Blocks[hphi.Block().Preds[i]] {
+			if !carried(e, 0) {
+				return false
+			}
+		} else {
+			if k, isC := e.(*ssa.Const); !isC || k.Value != nil {
+				if ms, isM := e.(*ssa.MakeSlice); !isM {
+					return false
+				} else if n, isK := constInt(ms.Len); !isK || n != 0 {
+					return false
+				}
+			}
+		}
+	}
+	// a trip counter of this loop known to be below len(x) at the append
+	for _, ce := range dominatingConds(app.Block()) {
+		bo, ok := ce.Cond.(*ssa.BinOp)
+		if !ok {
+			continue
+		}
+		op := bo.Op
+		if !ce.Val {
+			op = negateOp(op)
+		}
+		ly, ok := lenOf(bo.Y)
+		if !ok || op != token.LSS || !bp.sameSeq(ly, x) || !bp.loadStable(ly, x, at) {
+			continue
+		}
+		i := bo.X
+		counts := false
+		if add, isAdd := i.(*ssa.BinOp); isAdd && add.Op == token.ADD { // range form: phi(-1, i) + 1
+			if ph, isPhi := add.X.(*ssa.Phi); isPhi && ph.Block() == loop.Header && (rangeIndexSeq(i) != nil || func() bool { _, ok := rangeIndexConst(i); return ok }()) {
+				counts = true
+			}
+		}
+		if ph, isPhi := i.(*ssa.Phi); isPhi && ph.Block() == loop.Header && len(ph.Edges) == 2 { // counter form: phi(0, i+1)
+			zero, step := false, false
+			for _, e := range ph.Edges {
+				if k, isK := constInt(e); isK && k == 0 {
+					zero = true
+				} else if add, isAdd := e.(*ssa.BinOp); isAdd && add.Op == token.ADD && add.X == i {
+					if one, isOne := constInt(add.Y); isOne && one == 1 {
+						step = true
+					}
+				}
+			}
+			counts = zero && step
+		}
+		if counts {
+			return true
 		}
 	}
 	return false
